@@ -71,6 +71,7 @@ pub fn dispatch(line: &str) -> String {
         "entryfile" => entry::entryfile(&toks),
         "vcdcut" => cut::vcdcut(&toks),
         "vcd" | "vcdmt" => vcdcmd::vcd(&toks),
+        "chunks" => vcdcmd::chunks(&toks),
         "slice" => store::slice(&toks),
         "store" => store::store(&toks),
         "getoffset" => c05::getoffset(&toks),
